@@ -1948,7 +1948,8 @@ static void parse_pawn_pattern(TokenContext &ctx, Chunk &pc, E_Token tt)
    pc.Str().clear();
    pc.SetType(tt);
 
-   while (!unc_isspace(ctx.peek()))
+   while (  ctx.more()
+         && !unc_isspace(ctx.peek()))
    {
       // end the pattern on an escaped newline
       if (ctx.peek() == '\\')             // 92
